@@ -155,14 +155,16 @@ def r7(R):
     R.rule("C16.R7", "point_by_point.idxpoint: every orientation it returns - on the one-candidate early return as well as from the sorted loop - "
                      "has been through sym_u.find_uniq_u (directly, or as an element of ind.ubis after the list was reduced as a whole)")
     m = pyfacts.module(R, PBP)
-    fn = m.func("idxpoint")
+    fn = pyfacts.normalise_loops(m.ifunc("idxpoint"))     # X = []; for ..: X.append(E)  reads as  X = [E for ..]
     cfg = pyfacts.PyCFG(fn)
 
     def is_reduce(e):
         return isinstance(e, ast.Call) and (pyfacts.dotted(e.func) or "").split(".")[-1] == "find_uniq_u"
 
-    whole = [a for a in ast.walk(fn) if isinstance(a, ast.Assign) and len(a.targets) == 1 and src(a.targets[0]) == "ind.ubis"
-             and isinstance(a.value, ast.ListComp) and is_reduce(a.value.elt)]
+    def comp_of(a):
+        v = pyfacts.resolved(fn, a.value) if isinstance(a.value, ast.Name) else a.value
+        return isinstance(v, ast.ListComp) and is_reduce(v.elt)
+    whole = [a for a in ast.walk(fn) if isinstance(a, ast.Assign) and len(a.targets) == 1 and src(a.targets[0]) == "ind.ubis" and comp_of(a)]
     other = [a for a in ast.walk(fn) if isinstance(a, (ast.Assign, ast.AugAssign)) and any(src(t) == "ind.ubis" for t in (a.targets if isinstance(a, ast.Assign) else [a.target]))
              and a not in whole]
     outs = []
